@@ -16,8 +16,11 @@ Modelling decisions
   * `Future._input` (a dict keyed by the *identity* of the `Publishable` proxy, value = port index) is the
     insertion-ordered list `G.regs`; callers create a fresh proxy per call (`node[i]`), hence the
     `Publisher collision` check of `register` (same proxy object twice) is unreachable and not modelled;
-  * recursion of `_collapse` through chains of futures carries fuel (`nodes.length + 1` is enough for every
-    acyclic registration structure; on a registration cycle Python raises `RecursionError`, the model `Err.recursion`);
+  * the model follows the code with `fixes/C11-atomic-topology-errors.diff` applied (rollback of a failed
+    `publish` / `train`, dry run + cycle refusal in `Future.register`);
+  * recursion through trees of futures (`_publish`/`_collapse`, `_unpublish`, `_publishable`, `_follows`) carries
+    fuel (`nodes.length + 1` is enough for every acyclic registration structure, and `register` refuses cycles;
+    where Python would raise `RecursionError` the model answers `Err.recursion`);
   * `Node.__eq__/__hash__` Future/Worker aliasing is modelled where the tracing code compares nodes
     (`eqNode`, `memNode`); the keys of `_PORTS` are workers only (a Future never gets an entry through the
     modelled calls), so identity is used there;
@@ -179,60 +182,102 @@ def subscription (g : G) (s : Sub) : Option Err :=
   else if isFuture g s.node then some .futureSubscribing
   else none
 
-/-- `(p, s) for p, i in fut._input.items() for s in fut._output[i]` -/
-def pairs (g : G) (f : Nat) : List (Nat × Nat × Sub) :=
-  (g.regs.filter (fun r => r.fut = f)).flatMap (fun r => (out g f r.idx).map (fun s => (r.pub, r.out, s)))
+/-- publishers registered on input `idx` of the future `f` (`p for p, i in f._input.items() if i == idx`),
+registration order -/
+def pubsAt (g : G) (f idx : Nat) : List (Nat × Nat) :=
+  (g.regs.filter (fun r => r.fut = f ∧ r.idx = idx)).map (fun r => (r.pub, r.out))
 
-/-- `n._publish(idx, s)` for `Worker` (`trained` check, then `Node._publish`) and `Future`
-(`Node._publish`, then `_collapse()` = republish every registered pair, stopping at the first exception;
-the state reached so far is kept — nothing in the code undoes it). -/
+/-- `n._publishable(idx, s)` (dry run, nothing changes): `Worker`: `trained`, then the self check of `Node`;
+`Future`: the self check, then every publisher registered on that port.  `none` = would succeed. -/
+def publishable : Nat → G → Nat → Nat → Sub → Option Err
+  | 0, _, _, _, _ => some .recursion
+  | fuel + 1, g, n, idx, s =>
+    if isFuture g n then
+      if n = s.node then some .self
+      else (pubsAt g n idx).foldl
+        (fun (acc : Option Err) t => match acc with
+          | none => publishable fuel g t.1 t.2 s
+          | e => e)
+        none
+    else if trained g n then some .trainedPublishing
+    else if n = s.node then some .self
+    else none
+
+/-- `n._publish(idx, s)` for `Worker` (`trained` check, then `Node._publish`) and `Future` (`Node._publish`, then
+`_collapse()`, stopping at the first exception; the state reached so far is kept — the callers roll it back).
+`_collapse()` re-publishes *every* (registered publisher, held subscription) pair of the future; in the states
+the construction calls can reach every pair other than (publisher registered on `idx`, `s`) has been published
+before and publishing it again changes nothing, so the model forwards the new subscription only. -/
 def publishTo : Nat → G → Nat → Nat → Sub → G × Res
   | 0, g, _, _, _ => (g, .err .recursion)
   | fuel + 1, g, n, idx, s =>
     if isFuture g n then
       if n = s.node then (g, .err .self)
-      else
-        let g1 := addEdge g ⟨n, idx, s⟩
-        (pairs g1 n).foldl
-          (fun (acc : G × Res) t => match acc.2 with
-            | .ok => publishTo fuel acc.1 t.1 t.2.1 t.2.2
-            | _ => acc)
-          (g1, .ok)
+      else (pubsAt g n idx).foldl
+        (fun (acc : G × Res) t => match acc.2 with
+          | .ok => publishTo fuel acc.1 t.1 t.2 s
+          | _ => acc)
+        (addEdge g ⟨n, idx, s⟩, .ok)
     else if trained g n then (g, .err .trainedPublishing)
     else if n = s.node then (g, .err .self)
     else (addEdge g ⟨n, idx, s⟩, .ok)
 
-/-- `Future._collapse()` -/
-def collapse (fuel : Nat) (g : G) (f : Nat) : G × Res :=
-  (pairs g f).foldl
-    (fun (acc : G × Res) t => match acc.2 with
-      | .ok => publishTo fuel acc.1 t.1 t.2.1 t.2.2
-      | _ => acc)
-    (g, .ok)
+/-- `Port.discard` -/
+def delEdge (g : G) (e : Edge) : G := { g with edges := g.edges.filter (· ≠ e) }
 
-/-- `Future.__getitem__(i).register(publisher)`: record the proxy, then `_collapse()` -/
-def register (fuel : Nat) (g : G) (f i p pi : Nat) : G × Res :=
-  collapse fuel { g with regs := g.regs ++ [⟨f, i, p, pi⟩] } f
+/-- `n._unpublish(idx, s)`: withdraw the subscription from the port and (for a `Future`) from every publisher
+registered on that port -/
+def unpublishTo : Nat → G → Nat → Nat → Sub → G
+  | 0, g, _, _, _ => g
+  | fuel + 1, g, n, idx, s =>
+    if isFuture g n then
+      (pubsAt g n idx).foldl (fun (acc : G) t => unpublishTo fuel acc t.1 t.2 s) (delEdge g ⟨n, idx, s⟩)
+    else delEdge g ⟨n, idx, s⟩
 
 def fuelOf (g : G) : Nat := g.nodes.length + 1
 
+/-- `Future._follows(other)`: `a` is `other` or is (transitively) registered to it through futures only -/
+def follows : Nat → G → Nat → Nat → Bool
+  | 0, _, _, _ => false
+  | fuel + 1, g, a, other =>
+    a == other || (g.regs.filter (fun r => r.fut = a)).any (fun r => isFuture g r.pub && follows fuel g r.pub other)
+
+/-- `Future.__getitem__(i).register(publisher)`: refuse a cycle of placeholders, dry-run every held
+subscription of that port on the publisher, then record the proxy and `_collapse()` -/
+def register (g : G) (f i p pi : Nat) : G × Res :=
+  if isFuture g p && follows (fuelOf g) g p f then (g, .err .self)
+  else
+    match (out g f i).foldl
+        (fun (acc : Option Err) s => match acc with
+          | none => publishable (fuelOf g) g p pi s
+          | e => e)
+        none with
+    | some e => (g, .err e)
+    | none =>
+      (out g f i).foldl
+        (fun (acc : G × Res) s => match acc.2 with
+          | .ok => publishTo (fuelOf g) acc.1 p pi s
+          | _ => acc)
+        ({ g with regs := g.regs ++ [⟨f, i, p, pi⟩] }, .ok)
+
+/-- drop the port from `_PORTS` -/
+def delPort (g : G) (s : Sub) : G := { g with ports := g.ports.filter (· ≠ s) }
+
 /-- `Publishable(p, pi).publish(s.node, s.port)`: a `Future` subscriber (other than the publisher itself)
-registers the publisher; otherwise create the `Subscription`, `republish`, and on any exception
-discard the port from `_PORTS` again. -/
+registers the publisher; otherwise create the `Subscription`, `republish`, and on any exception withdraw
+whatever part of the publisher's upstream received it and discard the port from `_PORTS` again. -/
 def publish (g : G) (p pi : Nat) (s : Sub) : G × Res :=
-  if isFuture g s.node ∧ s.node ≠ p then register (fuelOf g) g s.node s.port.index p pi
+  if isFuture g s.node ∧ s.node ≠ p then register g s.node s.port.index p pi
   else match subscription g s with
     | some e => (g, .err e)
     | none =>
-      let g1 := { g with ports := g.ports ++ [s] }
-      match publishTo (fuelOf g) g1 p pi s with
-      | (g2, .err e) => ({ g2 with ports := g2.ports.filter (· ≠ s) }, .err e)
-      | (g2, r) =>
-        -- `Port.add` keeps the *old* key when an equal subscription is already held; if the new object was
-        -- stored nowhere it dies on return and `Subscription.__del__` discards the port again (this needs a
-        -- dangling equal subscription, i.e. a state left behind by a non-atomic failure)
-        if (g2.edges.filter (·.sub = s)).length = (g.edges.filter (·.sub = s)).length
-        then ({ g2 with ports := g2.ports.filter (· ≠ s) }, r) else (g2, r)
+      match publishTo (fuelOf g) { g with ports := g.ports ++ [s] } p pi s with
+      | (g2, .err e) => (delPort (unpublishTo (fuelOf g) g2 p pi s) s, .err e)
+      | (g2, r) => (g2, r)
+
+/-- `Publishable(p, pi).unpublish(s.node, s.port)` (rollback helper of `Worker.train`) -/
+def unpublish (g : G) (p pi : Nat) (s : Sub) : G :=
+  if (⟨p, pi, s⟩ : Edge) ∈ g.edges then delPort (unpublishTo (fuelOf g) g p pi s) s else g
 
 /-! ### atomic.py : construction calls -/
 
@@ -258,17 +303,20 @@ def fork (g : G) (n : Nat) : G × Res :=
 calls `publisher.publish(node, Apply(j))`. -/
 def subscribe (g : G) (s j p pi : Nat) : G × Res :=
   if g.nodes.length ≤ s ∨ g.nodes.length ≤ p then (g, .err .noNode)
-  else if isFuture g s then register (fuelOf g) g s j p pi
+  else if isFuture g s then register g s j p pi
   else publish g p pi ⟨s, .apply j⟩
 
-/-- `Worker.train(train, label)` -/
+/-- `Worker.train(train, label)`: the train publish is withdrawn again when the label publish raises -/
 def train (g : G) (n tp ti lp li : Nat) : G × Res :=
   if !isWorker g n ∨ g.nodes.length ≤ tp ∨ g.nodes.length ≤ lp then (g, .err .noNode)
   else if !stateful g n then (g, .err .stateless)
   else if (group g n).any (trained g) then (g, .err .forkTrain)
   else match publish g tp ti ⟨n, .train⟩ with
     | (g1, .err e) => (g1, .err e)
-    | (g1, _) => publish g1 lp li ⟨n, .label⟩
+    | (g1, _) =>
+      match publish g1 lp li ⟨n, .label⟩ with
+      | (g2, .err e) => (unpublish g2 tp ti ⟨n, .train⟩, .err e)
+      | r => r
 
 /-! ### span.py : tracing -/
 
@@ -447,10 +495,19 @@ def I6 (g : G) : Prop :=
 /-- (I7) well-formedness: publishers exist, subscribers are workers -/
 def I7 (g : G) : Prop := ∀ e ∈ g.edges, e.pub < g.nodes.length ∧ isWorker g e.sub.node
 
-def Inv (g : G) : Prop := I1 g ∧ I2 g ∧ I3 g ∧ I4 g ∧ I5 g ∧ I6 g ∧ I7 g
+/-- (I8) well-formedness of `Future._input`: registrations sit on futures and name existing publishers -/
+def I8 (g : G) : Prop := ∀ r ∈ g.regs, isFuture g r.fut ∧ r.pub < g.nodes.length
+
+/-- everything but (I1) — holds after every call sequence, whatever the route -/
+def Wf (g : G) : Prop := I2 g ∧ I3 g ∧ I4 g ∧ I5 g ∧ I6 g ∧ I7 g ∧ I8 g
+
+def Inv (g : G) : Prop := I1 g ∧ Wf g
+
+instance (g : G) : Decidable (Wf g) := by
+  unfold Wf I2 I3 I4 I5 I6 I7 I8; infer_instance
 
 instance (g : G) : Decidable (Inv g) := by
-  unfold Inv I1 I2 I3 I4 I5 I6 I7; infer_instance
+  unfold Inv I1; infer_instance
 
 /-- worker-to-worker connections: the edges published by workers (collapsing is eager in the code, so
 "futures substituted away" is simply "drop what placeholders hold") -/
